@@ -356,6 +356,17 @@ func (vc *VC) evalKnown(key string, callee *types.Func, recv Value, call *ast.Ca
 		b := vc.term(vc.evalExpr(call.Args[1], st), pos)
 		return []Value{Term{fmt.Sprintf("(err.is %s %s)", a.S, b.S), SBool, types.Typ[types.Bool]}}, true
 	case "errors.Join":
+		if call.Ellipsis != token.NoPos && len(call.Args) == 1 {
+			// errors.Join(errs...): nil iff every element is nil; wraps every non-nil element
+			sl := vc.term(vc.evalExpr(call.Args[0], st), pos)
+			if si := vc.ss.info[sl.Sort]; si != nil && si.Kind == "slice" {
+				e := vc.freshOfSort("joined", SErr, nil)
+				in := fmt.Sprintf("(and (<= 0 j!) (< j! (len.%s %s)) (not (= (select (arr.%s %s) j!) err.nil))", sl.Sort, sl.S, sl.Sort, sl.S)
+				vc.assume(tBool(true), Term{fmt.Sprintf("(= (not (= %s err.nil)) (exists ((j! Int)) %s)))", e.S, in), SBool, nil})
+				vc.assume(tBool(true), Term{fmt.Sprintf("(forall ((y! Err)) (! (=> (not (= %s err.nil)) (= (err.is %s y!) (or (= y! %s) (exists ((j! Int)) %s (err.is (select (arr.%s %s) j!) y!)))))) :pattern ((err.is %s y!))))", e.S, e.S, e.S, in, sl.Sort, sl.S, e.S), SBool, nil})
+				return []Value{e}, true
+			}
+		}
 		var parts []Term
 		for _, a := range call.Args {
 			parts = append(parts, vc.term(vc.evalExpr(a, st), pos))
